@@ -26,7 +26,7 @@ theorem matchCharacter_bound (e : Eng) (bd : Bind) (pfx : Bool) (read : Seq) (h 
 
 /-- dispatching one byte that is bound exactly and extends to nothing -/
 theorem matchMain_byte (e : Eng) (b : Nat) (rest : List Nat) (bd : Bind)
-    (hne : e.mainTbl.isEmpty = false) (hb : b < 0x80) (hesc : b ≠ 0x1b)
+    (hne : e.mainTbl.isEmpty = false) (hni : e.nonInc = false) (hli : e.lisearch = false) (hb : b < 0x80) (hesc : b ≠ 0x1b)
     (hbuf : e.keys.buf = b :: rest) (hmk : e.keys.mkeys = [])
     (h1 : lastExact [b] e.mainTbl = bd) (h2 : hasProperExt [b] e.mainTbl = false)
     (hact : bd.action ≠ "") :
@@ -34,14 +34,15 @@ theorem matchMain_byte (e : Eng) (b : Nat) (rest : List Nat) (bd : Bind)
       ({ e with active := bd, prefixed := Bind.none,
                 keys := { e.keys with buf := rest, matched := [b], mustWait := false } },
         bd, hasCmd e bd, false) := by
+  have hmb : e.mainBinds = e.mainTbl := by simp [Eng.mainBinds, hni, hli]
   unfold matchMain
-  simp only [hne, Bool.false_eq_true, if_false, hbuf, hmk, List.length_cons, List.length_nil, Nat.add_zero]
+  simp only [hmb, hne, Bool.false_eq_true, if_false, hbuf, hmk, List.length_cons, List.length_nil, Nat.add_zero]
   have hpeek : e.keys.peek = some b := by simp [Keys.peek, hbuf]
   have hpop : e.keys.pop = { e.keys with buf := rest } := by
     simp [Keys.pop, hbuf]
   simp only [dispatchKeys, hpeek, List.nil_append, matchBind_eq, h1, h2, hact, false_and, if_false,
     Bool.false_eq_true, hpop, matchCharacter_bound _ _ _ _ hact]
-  simp [Keys.matchedKeys, runes_single b hb, isEscapeKey, hesc, hasCmd, hmk]
+  simp [Keys.matchedKeys, runes_single b hb, isEscapeKey, hesc, hasCmd, hmk, nonIncOverride, hni]
 
 
 /-- state between keystrokes while typing at the end of the line -/
@@ -51,6 +52,8 @@ structure Good (sh : Sh) (typed : List Nat) : Prop where
   cur : sh.cur = typed.length
   hmk : sh.eng.keys.mkeys = []
   hmw : sh.eng.keys.mustWait = false
+  hni : sh.eng.nonInc = false
+  hli : sh.eng.lisearch = false
   hacc : sh.accepted = none
 
 theorem tableOK_congr {e e' : Eng} (h : TableOK e) (h1 : e'.mainTbl = e.mainTbl)
@@ -83,7 +86,7 @@ theorem iter_printable (sh : Sh) (typed : List Nat) (b : Nat) (rest : List Nat)
   have ht := g.tbl
   obtain ⟨ha1, ha2⟩ := ht.ascii b ⟨hb1, hb2⟩
   let e0 : Eng := { sh.eng with keys := sh.eng.keys.flushUsed }
-  have hm := matchMain_byte e0 b rest selfIns (by simpa [e0] using ht.ne) (by omega) (by omega)
+  have hm := matchMain_byte e0 b rest selfIns (by simpa [e0] using ht.ne) (by simpa [e0] using g.hni) (by simpa [e0] using g.hli) (by omega) (by omega)
     (by simpa [e0, Keys.flushUsed] using hbuf) (by simpa [e0, Keys.flushUsed] using g.hmk)
     (by simpa [e0] using ha1) (by simpa [e0] using ha2) (by simp [selfIns])
   have hcmd : hasCmd e0 selfIns = true := by
@@ -118,6 +121,8 @@ theorem iter_printable (sh : Sh) (typed : List Nat) (b : Nat) (rest : List Nat)
     omega
   · simpa [e0, Keys.flushUsed] using g.hmk
   · rfl
+  · exact g.hni
+  · exact g.hli
   · exact g.hacc
 
 
@@ -128,7 +133,7 @@ theorem iter_cr (sh : Sh) (typed : List Nat) (rest : List Nat)
   have ht := g.tbl
   obtain ⟨ha1, ha2⟩ := ht.cr
   let e0 : Eng := { sh.eng with keys := sh.eng.keys.flushUsed }
-  have hm := matchMain_byte e0 13 rest acceptB (by simpa [e0] using ht.ne) (by omega) (by omega)
+  have hm := matchMain_byte e0 13 rest acceptB (by simpa [e0] using ht.ne) (by simpa [e0] using g.hni) (by simpa [e0] using g.hli) (by omega) (by omega)
     (by simpa [e0, Keys.flushUsed] using hbuf) (by simpa [e0, Keys.flushUsed] using g.hmk)
     (by simpa [e0] using ha1) (by simpa [e0] using ha2) (by simp [acceptB])
   have hcmd : hasCmd e0 acceptB = true := by
@@ -192,7 +197,7 @@ theorem typed_ascii_returned : ∀ (fuel : Nat) (chunks : List (List Nat)) (sh :
           exact ih cs sh typed rest g hp (by simpa using hbytes) (by simp at hfuel ⊢; omega)
         · have hce : c.isEmpty = false := by cases c <;> simp_all
           rw [run_read fuel c cs sh g.hacc hn hce]
-          have g1 : Good (feed sh c) typed := ⟨tableOK_congr g.tbl rfl rfl, g.line, g.cur, g.hmk, g.hmw, g.hacc⟩
+          have g1 : Good (feed sh c) typed := ⟨tableOK_congr g.tbl rfl rfl, g.line, g.cur, g.hmk, g.hmw, g.hni, g.hli, g.hacc⟩
           have hb1 : (feed sh c).eng.keys.buf = c := by simp [feed, hb]
           obtain ⟨k, t, hkt⟩ : ∃ k t, c = k :: t := by
             cases c with
